@@ -179,6 +179,20 @@ def _cap_ok(cap):
     return False, 'buffer capacity is computed as %s (must be the given capacity or 512)' % fmt(cap)
 
 
+def _zero_paths_return_err(b, T, ops):
+    """do all paths that avoid the writer call end in Err (a refusal, not a side door)?"""
+    if len(ops) != 1:
+        return False
+    import copy
+    b2 = copy.copy(b)
+    b2.blocks = list(b.blocks)
+    b2.blocks[ops[0]] = dict(b.blocks[ops[0]], term={'k': 'unreachable'})
+    live = reach(b2, [0])
+    b2.blocks = [blk if i in live else dict(blk, stmts=[], term={'k': 'unreachable'}) for i, blk in enumerate(b2.blocks)]
+    rts = ret_terms(Terms(b2), [0])
+    return bool(rts) and all(r[0] == 'adt' and r[2] == 'Err' for r in rts)
+
+
 def rule_lock_discipline(ctx, rep, rid, methods=('emit', 'flush')):
     """C12-R1 / D1: emit and flush of each buffered sink = lock (blocking) once; one write/flush on the guarded writer;
     the result of that call is returned."""
@@ -218,14 +232,18 @@ def rule_lock_discipline(ctx, rep, rid, methods=('emit', 'flush')):
                    'exactly one Mutex::lock on self.%s' % field if ok else
                    'expected exactly one blocking Mutex::lock on self.%s per call; found %s' % (
                        field, [strip_generics(b.term(x)['callee']) for x in locks]))
-            if not ok:
-                continue
-            lockterm = norm(T.call_term(lock_ok[0]))
             target = 'write' if meth == 'emit' else 'flush'
             ops = [bi for bi, t in b.calls() if not b.blocks[bi]['cleanup'] and
                    callee_is(t, 'as std::io::Write>::' + target) and MLW in strip_generics(t.get('callee_full', ''))]
             cw = count_events(b, lambda x: x in ops)
             ok2 = len(ops) == 1 and cw == {1}
+            if not ok:
+                # the writer-call count is reported even when the locking is not as expected (properties that borrow only
+                # that clause): a path that returns Ok without going through the writer is a side door
+                rep.ob(rid, inst + '/one-writer-call', ok2 or cw <= {0, 1} and _zero_paths_return_err(b, T, ops), b.where(ops[0]) if ops else b.where(),
+                       'exactly one MultiLineWriter::%s per call (or an error without touching it)' % target)
+                continue
+            lockterm = norm(T.call_term(lock_ok[0]))
             rep.ob(rid, inst + '/one-writer-call', ok2, b.where(ops[0]) if ops else b.where(),
                    'exactly one MultiLineWriter::%s per call' % target if ok2 else
                    'expected exactly one MultiLineWriter::%s on every path, counts %s' % (target, sorted(cw)))
